@@ -667,11 +667,16 @@ def generate(ctx, quick, rng, gen_stats):
 
 def load_own_findings(ctx):
     """findings.d/C15.json is this check's fragment of known-findings.json; honour it even before it is merged."""
-    path = os.path.join(lib.VERIF, "findings.d", "C15.json")
+    # VERIF_C15_FINDINGS=.after-fix selects the fragment that describes the repaired tree (fix verification)
+    path = os.path.join(lib.VERIF, "findings.d", "C15.json" + os.environ.get("VERIF_C15_FINDINGS", ""))
     try:
         with open(path) as f:
             own = json.load(f)
     except FileNotFoundError:
+        return
+    if os.environ.get("VERIF_C15_FINDINGS"):
+        # fix verification: only the selected fragment counts (a "fixed" entry suppresses nothing)
+        ctx._known = [k for k in ctx.known() if k.get("property") != "C15"] + own
         return
     have = {(k.get("property"), k.get("key")) for k in ctx.known()}
     ctx._known = ctx.known() + [k for k in own if (k.get("property"), k.get("key")) not in have]
